@@ -233,7 +233,33 @@ const MANDATORY: &[Node<'static, MinDev>] = &[
 /// same on both trees.
 pub const MIN_TREE_ALT: Node<'static, MinDev> = Node::root(&[
     Node::default_branch(b"", MANDATORY),
-    scpi_status!(),
+    // the STATus subsystem assembled by hand from the documented command type aliases
+    Node::branch(
+        b"STATus",
+        &[
+            Node::branch(
+                b"OPERation",
+                &[
+                    Node::default_leaf(b"EVENt", &scpi_contrib::scpi1999::status::operation::StatOperEventCommand::new()),
+                    Node::leaf(b"CONDition", &scpi_contrib::scpi1999::status::operation::StatOperConditionCommand::new()),
+                    Node::leaf(b"ENABle", &scpi_contrib::scpi1999::status::operation::StatOperEnableCommand::new()),
+                    Node::leaf(b"NTRansition", &scpi_contrib::scpi1999::status::operation::StatOperNTransitionCommand::new()),
+                    Node::leaf(b"PTRansition", &scpi_contrib::scpi1999::status::operation::StatOperPTransitionCommand::new()),
+                ],
+            ),
+            Node::branch(
+                b"QUEStionable",
+                &[
+                    Node::default_leaf(b"EVENt", &scpi_contrib::scpi1999::status::questionable::StatQuesEventCommand::new()),
+                    Node::leaf(b"CONDition", &scpi_contrib::scpi1999::status::questionable::StatQuesConditionCommand::new()),
+                    Node::leaf(b"ENABle", &scpi_contrib::scpi1999::status::questionable::StatQuesEnableCommand::new()),
+                    Node::leaf(b"NTRansition", &scpi_contrib::scpi1999::status::questionable::StatQuesNTransitionCommand::new()),
+                    Node::leaf(b"PTRansition", &scpi_contrib::scpi1999::status::questionable::StatQuesPTransitionCommand::new()),
+                ],
+            ),
+            Node::leaf(b"PRESet", &scpi_contrib::scpi1999::status::StatPresetCommand),
+        ],
+    ),
     scpi_system!(),
     Node::branch(b"TEST", &[Node::leaf(b"FAIL", &FailCommand), Node::leaf(b"U8", &U8Command)]),
 ]);
